@@ -11,6 +11,10 @@ qseed=int)`. Operations (paths are absolute, without reserved segments):
     ["mdel", path, name]                  del mc[path].meta[name]
     ["mseq", path, [sub...]]              m = mc[path].meta ; then on the SAME handle:
                                            ["set", name, ver, i] | ["del", name] | ["get", name, ver]
+    "mset" ops and "set" sub-operations may carry two more elements [.., key shape, value shape]
+    (KEY_SHAPES x VAL_SHAPES: `meta[name | (name, ver) | SchemaClass | PluginRef] = instance | dict |
+    JSON | bytes | instance of the key class`), "get" sub-operations one more (see `get_shaped`);
+    the instance i may belong to another schema than `name` (descendant: instance of a subclass).
     ["del", path]                         del mc[path]
     ["copy", src, dst, without_meta]      mc.copy(src, dst[, without_meta=True])
     ["move", src, dst]                    mc.move(src, dst)
@@ -120,7 +124,57 @@ def _setup_env():
     for r in refs:
         cls = schemas._LOADED_PLUGINS[r]
         _env["jsonschema"][ep(r.name, r.version)] = json.loads(cls.schema_json())
+    _env["unreg"] = {}
     return _env
+
+
+def exact_class(name, ver):
+    """The installed schema class of exactly (name, ver), or None."""
+    e = _setup_env()
+    for r in e["refs"]:
+        if r.name == name and tuple(r.version) == tuple(ver):
+            return e["schemas"]._LOADED_PLUGINS[r]
+    return None
+
+
+def key_class(name, ver):
+    """A schema CLASS denoting (name, ver): the installed class of exactly that release, else a
+    class that is not registered as a plugin (only its `Plugin.name/version` say what it is)."""
+    cls = exact_class(name, ver)
+    if cls is not None:
+        return cls
+    e = _setup_env()
+    k = (name, tuple(ver))
+    if k not in e["unreg"]:
+        from typing import Optional
+
+        from metador_core.schema import MetadataSchema
+
+        ns = {"__annotations__": {"tag": Optional[str]}, "tag": None, "__module__": __name__,
+              "Plugin": type("Plugin", (), {"name": name, "version": tuple(ver)})}
+        e["unreg"][k] = type(MetadataSchema)("VT_unreg_%d" % len(e["unreg"]), (MetadataSchema,), ns)
+    return e["unreg"][k]
+
+
+# call shapes of `node.meta[KEY] = VALUE` (all equivalent for the model: `plugin_args` maps KEY to
+# (name, version); VALUE is parsed with the resolved class unless it already is an instance of it)
+KEY_SHAPES = ("tuple", "name", "class", "ref")
+VAL_SHAPES = ("inst", "dict", "json", "raw", "keyinst")
+
+
+def set_shapes(s):
+    """(key shape, value shape) of a `set` sub-operation ["set", name, ver, i, ksh?, vsh?]."""
+    ksh = s[4] if len(s) > 4 else "tuple"
+    vsh = s[5] if len(s) > 5 else "inst"
+    if ksh in ("class", "ref") and not s[2]:
+        ksh = "tuple"  # a class / PluginRef always carries a version
+    return ksh, vsh
+
+
+def set_target(s):
+    """(name, version) a `set` sub-operation asks for, as `plugin_args` sees its key."""
+    ksh, _ = set_shapes(s)
+    return s[1], (None if ksh == "name" or not s[2] else tuple(s[2]))
 
 
 def env_info(_case=None):
@@ -201,6 +255,16 @@ class _Run:
             b = bytes(obj)
             self.insts.append((cls, obj, b))
             self.by_bytes.setdefault(b, "i%d" % i)
+        # the same instance as it is stored when it arrives in another call shape (dict / JSON /
+        # instance converted to another release or to an ancestor schema)
+        for i, (cls, obj, b) in enumerate(self.insts):
+            d = case["insts"][i][2]
+            for K in self.related_classes(cls):
+                for mk in (lambda: K.parse_obj(d), lambda: K.parse_obj(obj.dict()), lambda: K.parse_raw(b)):
+                    try:
+                        self.by_bytes.setdefault(bytes(mk()), "i%d" % i)
+                    except Exception:  # noqa: BLE001
+                        pass
         self.stored = {}  # uuid -> instance index (harness bookkeeping for C07)
 
     # ------------------------------------------------------------------ helpers
@@ -211,6 +275,73 @@ class _Run:
 
     def raw(self):
         return self.mc.__wrapped__
+
+    def related_classes(self, cls):
+        """Installed classes of the same schema name (any release) and of the ancestor schemas."""
+        memo = self.env.setdefault("related", {})
+        if cls not in memo:
+            ref = cls.Plugin.ref()
+            try:
+                anc = [(r.name, tuple(r.version)) for r in self.schemas.parent_path(ref.name, tuple(ref.version))]
+            except KeyError:
+                anc = []
+            memo[cls] = [self.schemas._LOADED_PLUGINS[r] for r in self.env["refs"]
+                         if r.name == ref.name or (r.name, tuple(r.version)) in anc]
+        return memo[cls]
+
+    def set_key(self, s):
+        """KEY of `meta[KEY] = ...` in the requested call shape."""
+        ksh, _ = set_shapes(s)
+        name, ver = s[1], (tuple(s[2]) if s[2] else None)
+        if ksh == "name":
+            return name
+        if ksh == "ref":
+            return self.schemas.PluginRef(name=name, version=ver)
+        if ksh == "class":
+            return key_class(name, ver)
+        return (name, ver)
+
+    def set_val(self, s, key):
+        """VALUE of `meta[...] = VALUE` in the requested call shape."""
+        i = s[3]
+        _, vsh = set_shapes(s)
+        if i < 0:
+            return json.dumps(INVALID) if vsh in ("json", "raw") else dict(INVALID)
+        cls, obj, b = self.insts[i]
+        if vsh == "dict":
+            # the user's own dict for the schema it was written for, else the instance as dict
+            # (raw input of a descendant schema need not be valid input of the ancestor)
+            if self.case["insts"][i][0] == s[1]:
+                return json.loads(json.dumps(self.case["insts"][i][2]))
+            return json.loads(obj.json())
+        if vsh == "json":
+            return obj.json()
+        if vsh == "raw":
+            return b
+        if vsh == "keyinst" and isinstance(key, type):
+            try:
+                return key.parse_obj(self.case["insts"][i][2])
+            except Exception:  # noqa: BLE001
+                return obj
+        return obj
+
+    def get_shaped(self, m, name, ver, k):
+        """`m.get(name, ver)` in one of the equivalent call shapes of the metadata API."""
+        if k == 1:
+            return m.get((name, ver))
+        if k == 2 and ver:
+            return m.get(self.schemas.PluginRef(name=name, version=ver))
+        if k == 3 and ver and exact_class(name, ver) is not None:
+            return m.get(exact_class(name, ver))
+        if k == 4:
+            key = (name, ver)
+            try:
+                return m[key]  # __getitem__: KeyError(key) instead of None
+            except KeyError as e:
+                if e.args == (key,):
+                    return None
+                raise
+        return m.get(name, ver)
 
     def is_ds(self, node):
         return not hasattr(node, "keys")
@@ -481,7 +612,7 @@ class _Run:
                 cands = [(e, u, op) for e, u, op in att.get(n, []) if self.spec_match(e, name, ver)]
                 exact = [c for c in cands if self.ref_of(c[0])[0] == name]
                 try:
-                    obj = mc[n].meta.get(name, ver)
+                    obj = self.get_shaped(mc[n].meta, name, ver, (step + len(out)) % 5)
                     err = None
                 except Exception as e:  # noqa: BLE001
                     obj, err = None, type(e).__name__
@@ -651,15 +782,14 @@ class _Run:
 
     def meta_sub(self, m, node, s, step):
         if s[0] == "set":
-            _, name, ver, i = s
-            verT = tuple(ver) if ver else None
-            if i < 0:
-                val = dict(INVALID)
-            else:
-                val = self.insts[i][1]
+            i = s[3]
+            name, verT = set_target(s)
+            key = self.set_key(s)
+            val = self.set_val(s, key)
+            self.tags.add("set-shape:%s/%s" % set_shapes(s))
             before = set(self.raw().get(m._base_dir, {}).keys()) if m._base_dir in self.raw() else set()
             try:
-                m[(name, verT)] = val
+                m[key] = val
                 st = "ok"
             except Exception as e:  # noqa: BLE001
                 st = "err:" + type(e).__name__
@@ -684,6 +814,7 @@ class _Run:
                 if new:
                     self.hit("C07", "refused-set-left-object", step=step, schema=name, status=st)
                 self.tags.add("mset-" + st)
+                self.tags.add("mset-%s:%s/%s" % ((st,) + set_shapes(s)))
             return st
         if s[0] == "del":
             try:
@@ -694,9 +825,9 @@ class _Run:
                 self.tags.add("mdel-err")
                 return "err:" + type(e).__name__
         if s[0] == "get":
-            _, name, ver = s
+            name, ver = s[1], s[2]
             try:
-                o = m.get(name, tuple(ver) if ver else None)
+                o = self.get_shaped(m, name, tuple(ver) if ver else None, s[3] if len(s) > 3 else 0)
             except Exception as e:  # noqa: BLE001
                 return "err:" + type(e).__name__
             if o is None and not ver and m._base_dir in self.raw():
@@ -713,6 +844,7 @@ class _Run:
         obs_items = case.get("obs") or [[] for _ in ops]
         out = []
         prev_att, prev_kind, prev_recs = {}, {"/": "g"}, (set(), set())
+        was_at = {}  # path of annotated content -> paths it lived at earlier in this session
         for step, op in enumerate(ops):
             st = self.do_op(op, step)
             entries = self.raw_entries()
@@ -731,6 +863,12 @@ class _Run:
                     self.tags.add(t)
                 if op[0] == "copy" and op[2].startswith(src.rstrip("/") + "/"):
                     self.tags.add("copy-into-own-subtree")
+                if sub and op[0] != "del" and op[2] in was_at.get(src, ()) and not (op[0] == "copy" and op[3]):
+                    self.tags.add(op[0] + "-with-metadata-onto-earlier-path-of-source")
+                if op[0] == "move":
+                    was_at[op[2]] = was_at.pop(src, set()) | ({src} if sub else set())
+            if op[0] == "reopen":
+                was_at.clear()
             recs = (set(p for p, k, v in entries if p.startswith("/metador_container/schemas/") and p.count("/") == 3),
                     set(p for p, k, v in entries if p.startswith("/metador_container/packages/")))
             if prev_recs[0] - recs[0]:
@@ -820,9 +958,11 @@ class Shadow:
     """Approximate user-level picture of the container, only used to bias the generator
     towards valid operations (it never decides a verdict)."""
 
-    def __init__(self):
+    def __init__(self, names=None):
         self.kind = {"/": "g"}  # path -> 'g' | 'd'
         self.meta = {"/": set()}  # path -> set of schema names
+        self.names = list(names or NAMES)  # segment alphabet (small alphabets make paths get reused)
+        self.vacated = []  # (path that was freed by a move / delete, where its content went | None)
 
     def nodes(self, kind=None):
         return sorted(p for p, k in self.kind.items() if kind is None or k == kind)
@@ -834,12 +974,22 @@ class Shadow:
         groups = self.nodes("g")
         for _ in range(20):
             par = rng.choice(groups)
-            p = par.rstrip("/") + "/" + rng.choice(NAMES)
+            p = par.rstrip("/") + "/" + rng.choice(self.names)
             if rng.random() < 0.2:
-                p += "/" + rng.choice(NAMES)  # intermediate group created on the fly
+                p += "/" + rng.choice(self.names)  # intermediate group created on the fly
             if p not in self.kind and p.count("/") <= 4:
                 return p
-        return "/" + rng.choice(NAMES)
+        return "/" + rng.choice(self.names)
+
+    def free_again(self):
+        """Paths that were in use earlier in the history and are free now (their parent still
+        exists), with the place their former content lives at (if it was moved and still exists)."""
+        res = []
+        for old, new in self.vacated:
+            par = old.rsplit("/", 1)[0] or "/"
+            if old not in self.kind and self.kind.get(par) == "g":
+                res.append((old, new if new in self.kind else None))
+        return res
 
     def add(self, p, k):
         segs = p.split("/")[1:]
@@ -873,6 +1023,13 @@ for _n, _v, _p, *_r in VT_FAMILY:
         for _q in [_p[0]] + PARENT_HINT.get(_p[0], []):
             if _q not in PARENT_HINT[_n]:
                 PARENT_HINT[_n].append(_q)
+
+
+DESCENDANTS = {}
+for _n, _ps in PARENT_HINT.items():
+    for _q in _ps:
+        DESCENDANTS.setdefault(_q, []).append(_n)
+VT_NAMES = sorted(set(n for n, *_ in VT_FAMILY))
 
 
 def gen_obs(rng, sh, n, full=False):
@@ -960,24 +1117,80 @@ def gen_history(rng, n_ops, driver, insts, held=True, nq=5, nfinal=24, obs=None,
             return (v[0], 0, 0)  # older minor: resolves to the newest compatible
         return (v[0], v[1] + 1, 0) if r < 0.97 else (v[0] + 3, 0, 0)  # not installed -> KeyError
 
+    def value_schema(name):
+        """Schema of the VALUE that is passed for schema `name`: mostly `name` itself, else a
+        descendant schema (instance of a subclass) or - within vt.*, where every instance converts -
+        any other schema of the family (ancestor, sibling, other release, auxiliary)."""
+        r = rng.random()
+        if name == UNKNOWN:
+            return rng.choice(ATTACHABLE)
+        if r < 0.65:
+            return name
+        if DESCENDANTS.get(name) and r < 0.85:
+            return rng.choice(DESCENDANTS[name])
+        if name.startswith("vt."):
+            return rng.choice(VT_NAMES)
+        return name
+
+    def shaped(sub, p_plain=0.4):
+        """Random call shape `meta[name | (name, ver) | SchemaClass | PluginRef] = instance | dict |
+        JSON str | bytes | instance of the key class` (all mean the same to the model)."""
+        if rng.random() < p_plain:
+            return sub
+        name, ver = sub[1], sub[2]
+        ksh = rng.choice(KEY_SHAPES + ("class", "class"))
+        if ksh in ("class", "ref") and not ver:
+            ver = list(rng.choice(FAM_VERS.get(name, [(1, 0, 0)])))
+        vsh = rng.choice(VAL_SHAPES + ("keyinst",))
+        if vsh == "keyinst" and ksh != "class":
+            vsh = "inst"
+        return [sub[0], name, ver, sub[3], ksh, vsh]
+
     def gen_set(p):
         r = rng.random()
         have = sh.meta.get(p, set())
-        if r < 0.72:
+        if r < 0.68:
             cand = [n for n in ATTACHABLE if n not in have] or ATTACHABLE
             name = rng.choice(cand)
             ver = pick_ver(name)
-            return ["set", name, list(ver) if ver else None, inst_for(name, ver if ver in FAM_VERS.get(name, []) else None)], name
-        if r < 0.80 and have:
+            vs = value_schema(name)
+            i = inst_for(vs, (ver if ver in FAM_VERS.get(name, []) else None) if vs == name else None)
+            return shaped(["set", name, list(ver) if ver else None, i]), name
+        if r < 0.76 and have:
             name = rng.choice(sorted(have))  # second object of same schema -> ValueError
-            return ["set", name, None, inst_for(name, None)], None
-        if r < 0.87:
-            return ["set", "vt.xx", None, inst_for("vt.xx", None)], None  # auxiliary -> TypeError
-        if r < 0.93:
-            name = rng.choice(ATTACHABLE)
-            return ["set", UNKNOWN, None, inst_for(name, None)], None  # unknown -> KeyError
+            return shaped(["set", name, None, inst_for(value_schema(name), None)]), None
+        if r < 0.86:  # auxiliary -> TypeError, whatever the call shape
+            ver = [1, 0, 0] if rng.random() < 0.5 else None
+            return shaped(["set", "vt.xx", ver, inst_for(rng.choice(["vt.xx", "vt.xx", "vt.yy", rng.choice(VT_NAMES)]), None)], 0.15), None
+        if r < 0.93:  # unknown -> KeyError, whatever the call shape
+            ver = [1, 0, 0] if rng.random() < 0.5 else None
+            return shaped(["set", UNKNOWN, ver, inst_for(value_schema(UNKNOWN), None)], 0.15), None
         name = rng.choice([n for n in ATTACHABLE if n not in have] or ATTACHABLE)
-        return ["set", name, None, -1], None  # invalid instance -> ValidationError
+        return shaped(["set", name, None, -1]), None  # invalid instance -> ValidationError
+
+    def pick_back(annotated_only=False):
+        """(src, dst) with dst a path that was freed earlier in this history; src mostly the
+        content that used to live there (move a -> b ... copy/move b -> a), else any node."""
+        free = sh.free_again()
+        if not free:
+            return None
+        ann = [(o, n) for o, n in free if n and any(sh.meta.get(q) for q in sh.under(n))]
+        if annotated_only:
+            if not ann:
+                return None
+            old, new = rng.choice(ann)
+            return None if old == new or old.startswith(new + "/") else (new, old)
+        if rng.random() >= (0.6 if ann else 0.25):
+            return None
+        old, new = rng.choice(ann) if ann and rng.random() < 0.8 else rng.choice(free)
+        if new is None or rng.random() < 0.25:
+            cand = [p for p in sh.kind if p != "/" and not old.startswith(p + "/")]
+            if not cand:
+                return None
+            new = rng.choice(sorted(cand))
+        if old == new or old.startswith(new + "/"):
+            return None
+        return new, old
 
     def pick_src(nonroot):
         withm = [p for p in nonroot if sh.meta.get(p)]
@@ -995,6 +1208,20 @@ def gen_history(rng, n_ops, driver, insts, held=True, nq=5, nfinal=24, obs=None,
         r = rng.random()
         nodes = sh.nodes()
         nonroot = [p for p in nodes if p != "/"]
+        if boundaries and rng.random() < 0.25:
+            # annotated content was moved away and its old path is free: put it (or a copy) back
+            back = pick_back(annotated_only=True)
+            if back:
+                src, dst = back
+                if rng.random() < 0.5:
+                    wm = rng.random() < 0.15
+                    ops.append(["copy", src, dst, wm, rng.random() < 0.2])
+                    sh.clone(src, dst, not wm)
+                else:
+                    ops.append(["move", src, dst])
+                    sh.clone(src, dst, True, move=True)
+                    sh.vacated.append((src, dst))
+                continue
         if attr_p and len(nodes) >= 2 and rng.random() < attr_p:
             ops.append(gen_attr_op(rng, sh, nodes))
             continue
@@ -1041,7 +1268,7 @@ def gen_history(rng, n_ops, driver, insts, held=True, nq=5, nfinal=24, obs=None,
                     if q < 0.4:
                         subs.append(["set", name, None, inst_for(name, None)])
                     elif q < 0.7:
-                        subs.append(["get", name, None])
+                        subs.append(["get", name, None] + ([rng.choice([1, 4])] if rng.random() < 0.4 else []))
                     else:
                         subs.append(["del", name])
                         have.discard(name)
@@ -1058,7 +1285,7 @@ def gen_history(rng, n_ops, driver, insts, held=True, nq=5, nfinal=24, obs=None,
                     have.discard(name)
                 else:
                     name = rng.choice(SCHEMA_NAMES)
-                    subs.append(["get", name, None])
+                    subs.append(["get", name, None] + ([rng.choice([1, 4])] if rng.random() < 0.4 else []))
             ops.append(["mseq", p, subs])
         elif r < 0.69:
             q = rng.random()
@@ -1069,6 +1296,7 @@ def gen_history(rng, n_ops, driver, insts, held=True, nq=5, nfinal=24, obs=None,
             elif nonroot and q < 0.9:
                 p = rng.choice(nonroot)
                 sh.remove(p)
+                sh.vacated.append((p, None))
             else:
                 p = sh.fresh_path(rng)
             ops.append(["del", p])
@@ -1077,12 +1305,15 @@ def gen_history(rng, n_ops, driver, insts, held=True, nq=5, nfinal=24, obs=None,
                 continue
             src = pick_src(nonroot) if rng.random() < 0.95 else sh.fresh_path(rng)
             q = rng.random()
-            if q < 0.85:
+            back = pick_back()
+            if back:
+                src, dst = back  # onto a path that was in use before (possibly by this very content)
+            elif q < 0.85:
                 dst = sh.fresh_path(rng)
             elif q < 0.95:
                 dst = rng.choice(nonroot)  # existing target -> refused
             else:
-                dst = src.rstrip("/") + "/" + rng.choice(NAMES)  # into own subtree (allowed for copy)
+                dst = src.rstrip("/") + "/" + rng.choice(sh.names)  # into own subtree (allowed for copy)
             wm = rng.random() < 0.35
             ops.append(["copy", src, dst, wm, rng.random() < 0.2])
             if src in sh.kind and dst not in sh.kind and not (sh.kind[src] == "g" and dst.startswith(src + "/") and False):
@@ -1094,6 +1325,9 @@ def gen_history(rng, n_ops, driver, insts, held=True, nq=5, nfinal=24, obs=None,
                 continue
             src = pick_src(nonroot) if rng.random() < 0.95 else sh.fresh_path(rng)
             dst = sh.fresh_path(rng) if rng.random() < 0.9 else rng.choice(nonroot)
+            back = pick_back()
+            if back:
+                src, dst = back
             if dst == src or dst.startswith(src + "/"):
                 continue  # never into own subtree (excluded by the property)
             ops.append(["move", src, dst])
@@ -1101,6 +1335,7 @@ def gen_history(rng, n_ops, driver, insts, held=True, nq=5, nfinal=24, obs=None,
                 par = dst.rsplit("/", 1)[0] or "/"
                 if sh.kind.get(par, "g") == "g":
                     sh.clone(src, dst, True, move=True)
+                    sh.vacated.append((src, dst))
         elif not boundaries:
             ops.append(gen_attr_op(rng, sh, nodes))
         elif r < 0.95:
@@ -1119,11 +1354,12 @@ def gen_case(rng, quick=True, held=True, driver=None, n_ops=None):
     driver = driver or rng.choice(["h5", "ih5"])
     n = n_ops or rng.randrange(6, 22 if quick else 40)
     obs = []
+    sh = Shadow(names=NAMES[:rng.choice([2, 2, 3, 4])])  # few names: freed paths are taken again
     if quick:
         nq, nfinal = 4, (24 if driver == "h5" else 10)
     else:
         nq, nfinal = 8, (-1 if driver == "h5" and rng.random() < 0.3 else 40 if driver == "h5" else 16)
-    ops = gen_history(rng, n, driver, insts, held=held, nq=nq, nfinal=nfinal, obs=obs)
+    ops = gen_history(rng, n, driver, insts, held=held, nq=nq, nfinal=nfinal, obs=obs, sh=sh)
     return dict(driver=driver, ops=ops, insts=insts, obs=obs)
 
 
@@ -1143,6 +1379,41 @@ def get_envinfo():
     return _ENVINFO
 
 
+def check_wfenv(info):
+    """The six clauses of `WFEnv` (lean/MetadorModel/Proofs/ContainerToc.lean) on the environment
+    that is passed to the model; `info` as returned by `env_info`. Returns violation strings."""
+    bad = []
+    ref = lambda n, v: (n, tuple(v))
+    first = {}
+    for s in info["schemas"]:  # `Env.info` = first entry with that reference
+        first.setdefault(ref(s["name"], s["ver"]), s)
+    plugins = {}
+    for p in info["pkgs"]:  # `Env.pkgPlugins` = first entry with that package id
+        plugins.setdefault((p["name"], tuple(p["ver"])), [ref(n, v) for n, v in p["plugins"]])
+    ppath = lambda r: [ref(n, v) for n, v in first[r]["parents"]] if r in first else []
+    for r, s in first.items():
+        par = ppath(r)
+        if not par or par[-1] != r:
+            bad.append("last: parent path of %s does not end in it" % (r,))
+        if len(set(par)) != len(par):
+            bad.append("nodup: %s occurs twice in a parent path" % (r,))
+        for i in range(1, len(par) + 1):
+            if ppath(par[i - 1]) != par[:i]:
+                bad.append("closed: prefix %d of the parent path of %s is not the parent path of %s" % (i, r, par[i - 1]))
+        pk = (s["pkg"][0], tuple(s["pkg"][1]))
+        if r not in plugins.get(pk, []):
+            bad.append("prov: %s is not listed by its provider %s" % (r, pk))
+    keys = list(plugins)
+    for i, a in enumerate(keys):
+        if len(set(plugins[a])) != len(plugins[a]):
+            bad.append("plugins_nodup: %s lists a schema twice" % (a,))
+        for b in keys[i + 1:]:
+            both = set(plugins[a]) & set(plugins[b])
+            if both:
+                bad.append("disj: %s and %s both list %s" % (a, b, sorted(both)[:3]))
+    return bad
+
+
 def env_lines(info):
     L = []
     for s in info["schemas"]:
@@ -1155,7 +1426,8 @@ def env_lines(info):
 
 def sub_line(s):
     if s[0] == "set":
-        return "set:%s:%s:%s" % (s[1], vstr(s[2]), "!bad" if s[3] < 0 else "i%d" % s[3])
+        name, ver = set_target(s)  # every call shape means (name, version) to the model
+        return "set:%s:%s:%s" % (name, vstr(ver), "!bad" if s[3] < 0 else "i%d" % s[3])
     if s[0] == "del":
         return "del:%s" % s[1]
     return "get:%s:%s" % (s[1], vstr(s[2]))
@@ -1343,8 +1615,11 @@ def cases_for(ctx, pid):
 
 def run_prop(ctx, pid, mod, rule_extra=""):
     ctx.rule = ("cases: random container histories (create group/dataset, attach/delete metadata incl. refused requests: auxiliary, unknown, "
-                "duplicate, invalid, missing node; operations on one kept node.meta handle; delete node; copy with/without metadata, path or node "
-                "object as source, also into the own subtree; move; close/reopen; IH5 patch boundaries) on h5py.File and IH5Record, over the "
+                "duplicate, invalid, missing node - each in every call shape meta[name | (name, ver) | SchemaClass | PluginRef] = instance | dict | "
+                "JSON | bytes | instance of the key class, values also of descendant / other vt.* schemas, classes of releases that are not "
+                "installed; operations on one kept node.meta handle; delete node; copy with/without metadata, path or node "
+                "object as source, also into the own subtree; move; copy/move back onto paths freed earlier in the same session (segment "
+                "alphabets of 2-4 names); close/reopen; IH5 patch boundaries) on h5py.File and IH5Record, over the "
                 "installed schemas core.file/dir/bib/imagefile/table and a harness-registered family vt.* (11 schemas, 2 packages, several "
                 "versions, 3-level inheritance, auxiliary parent). After EVERY step: canonical raw dump, TOC cache observations (public API + "
                 "_toc_path), sampled get/query observations; compared with the Lean model `drv_ctr`. Non-trivial = tagged (copy/move/delete of "
@@ -1356,7 +1631,12 @@ def run_prop(ctx, pid, mod, rule_extra=""):
         "json.loads(json.dumps(x)) = x for compat lists and package infos; entry point names parse back (C16 epname_roundtrip)",
         "schema environment (parent paths, providers, auxiliary flags) is read from the real plugin system on every run and passed to the model",
     ]
-    get_envinfo()
+    info = get_envinfo()
+    bad = check_wfenv(info)
+    ctx.obligation("env:WFEnv", "hypothesis `WFEnv e` of the container theorems, checked on the schema environment of the real plugin system",
+                   not bad, "; ".join(bad[:10]))
+    ctx.assumptions.append("node names are non-empty (HDF5; the driver's path parser refuses empty segments): side condition `OpOK` of "
+                           "`sync_step` / `sync_run` (the model's structured names contain `Key.user \"\"`, for which `move` breaks the invariant)")
     cases = cases_for(ctx, pid)
     ctx.correspond("container-model", mod, cases, lines, "drv_ctr", compare=compare_parts(PARTS[pid]), timeout=240)
     ctx.dist["cases:h5"] = sum(1 for c in cases if c["driver"] == "h5")
@@ -1436,24 +1716,24 @@ def prune_insts(case):
     """Drop unused instances from a (minimised) case and renumber the rest."""
     used = []
 
-    def subs(op):
+    def subs(op):  # (list, position of the instance index)
         if op[0] == "mset":
-            return [op]
+            return [(op, 4)]
         if op[0] == "mseq":
-            return [x for x in op[2] if x[0] == "set"]
+            return [(x, 3) for x in op[2] if x[0] == "set"]
         return []
 
     for op in case["ops"]:
-        for x in subs(op):
-            i = x[-1]
+        for x, k in subs(op):
+            i = x[k]
             if i >= 0 and i not in used:
                 used.append(i)
     ren = {i: k for k, i in enumerate(used)}
     ops = json.loads(json.dumps(case["ops"]))
     for op in ops:
-        for x in subs(op):
-            if x[-1] >= 0:
-                x[-1] = ren[x[-1]]
+        for x, k in subs(op):
+            if x[k] >= 0:
+                x[k] = ren[x[k]]
     return dict(case, ops=ops, insts=[case["insts"][i] for i in used])
 
 
